@@ -29,7 +29,7 @@ pub fn gen(ctx: &Ctx) -> Vec<Value> {
             _ => r.usize(12),
         };
         // malformed stream: ≈15 % of the cases carry positions that violate the schema
-        let cfg = ValCfg { malformed_permille: if r.chance(3, 20) { 30 } else { 0 } };
+        let cfg = if r.chance(1, 3) { ValCfg::strict() } else { ValCfg::new(if r.chance(3, 20) { 30 } else { 0 }) };
         let rows: Vec<Value> = (0..nrows).map(|_| gen_schema::gen_record(&mut r, &schema, &cfg)).collect();
         out.push(json!({"id": format!("build-{c:06}"), "seed": sub, "schema": schema, "rows": rows}));
     }
